@@ -2129,6 +2129,104 @@ impl Part for ObjectReuse {
     }
 }
 
+
+// ------------------------------------------------------------------------------------------------
+// E3j: rotation histories. Several DIFFERENT sessions of one suite follow one another in every order:
+// a small table of recent values (most-recently-used cache, memo with eviction) is only wrong after a
+// particular pattern of hits, misses and evictions
+// ------------------------------------------------------------------------------------------------
+
+#[derive(Clone, Debug, Serialize, Deserialize)]
+struct RotCase {
+    suite: usize,
+    receiver: bool,
+    first: usize,
+    depth: usize,
+}
+
+struct Rotation;
+
+const ROT_LETTERS: usize = 5;
+
+impl Part for Rotation {
+    type Case = RotCase;
+    fn name(&self) -> String {
+        "E3j-session-rotation-histories".into()
+    }
+    fn rule(&self) -> String {
+        "five DIFFERENT Auth sessions of one suite (five recipient key pairs, two sender identities) are set up one after the other in EVERY order of length <= depth (senders and receivers separately); each setup's encapsulated key and export are compared with R1: a table of recent values inside the library (a k-entry cache with eviction or reordering) must never hand one session another session's value".into()
+    }
+    fn bound(&self, cfg: &Cfg) -> String {
+        format!("all sequences of length <= {} over {} sessions, 2 suites x 2 roles", if cfg.tier.thorough() { "7 (X25519) / 6 (P-256)" } else { "5" }, ROT_LETTERS)
+    }
+    fn enumerate(&self, cfg: &Cfg) -> Vec<RotCase> {
+        let mut v = vec![];
+        for suite in 0..2 {
+            for receiver in [false, true] {
+                for first in 0..ROT_LETTERS {
+                    v.push(RotCase { suite, receiver, first, depth: if cfg.tier.thorough() { if suite == 0 { 7 } else { 6 } } else { 5 } });
+                }
+            }
+        }
+        v
+    }
+    fn run(&self, cfg: &Cfg, c: &RotCase) -> CaseOut {
+        let mut out = CaseOut::new();
+        out.nontrivial = true;
+        out.outcome = format!("suite{}/{}", c.suite, if c.receiver { "receivers" } else { "senders" });
+        let suite = if c.suite == 0 { ALPHA } else { BETA };
+        let ops = hpke_mc::suites::suite_ops(suite);
+        // session i: recipient i, sender identity i % 2 (so the same sender key meets several recipients)
+        let ids = [keys(suite.kem, 35_100, cfg.seed), keys(suite.kem, 35_101, cfg.seed)];
+        let mut sess = vec![];
+        for i in 0..ROT_LETTERS {
+            let mut k = keys(suite.kem, 35_000 + i as u64, cfg.seed);
+            k.sk_s = ids[i % 2].sk_s.clone();
+            k.pk_s = ids[i % 2].pk_s.clone();
+            let m = mode_spec(Mode::Auth, &k, b"", b"");
+            let info = bytes(Fill::Mix, 5, 35_000, cfg.seed);
+            let (enc, ctx) = r1_setup_s(suite, &m, &k.pk_r, &info, &k.ikm_e).expect("R1 setup");
+            let want = [enc.clone(), ctx.export(b"rot", 24).unwrap()].concat();
+            sess.push((k, m, info, enc, want));
+        }
+        let mut stack: Vec<Vec<usize>> = vec![vec![c.first]];
+        while let Some(path) = stack.pop() {
+            let mut last = Obs::Ok(vec![]);
+            for &i in &path {
+                let (k, m, info, enc, _) = &sess[i];
+                last = if c.receiver {
+                    match ops.setup_receiver(m, &k.sk_r, enc, info) {
+                        Obs::Ok(r) => r.export(b"rot", 24).map(|e| [enc.clone(), e].concat()),
+                        o => o.map(|_| vec![]),
+                    }
+                } else {
+                    match ops.setup_sender(m, &k.pk_r, info, &mut ScriptRng::new(&k.ikm_e)) {
+                        Obs::Ok((e, s)) => s.export(b"rot", 24).map(|x| [e.clone(), x].concat()),
+                        o => o.map(|_| vec![]),
+                    }
+                };
+            }
+            out.transitions += 1;
+            out.states += 1;
+            let li = *path.last().unwrap();
+            if last != Obs::Ok(sess[li].4.clone()) {
+                out.fail(format!("{} {} of sessions {:?} one after the other: the last one does not give R1's encapsulated key / export for session {} ({})", suite.name(), if c.receiver { "receiver setups" } else { "sender setups" }, path, li, last.class()));
+                if out.mismatches.len() > 3 {
+                    return out;
+                }
+            }
+            if path.len() < c.depth {
+                for l in 0..ROT_LETTERS {
+                    let mut q = path.clone();
+                    q.push(l);
+                    stack.push(q);
+                }
+            }
+        }
+        out
+    }
+}
+
 fn main() {
     let a: Vec<String> = std::env::args().collect();
     if a.len() > 3 && a[1] == "--cold" {
@@ -2306,6 +2404,8 @@ fn main() {
             replay_part(&pairs, &cfg, &v["case"])
         } else if v["part"].as_str() == Some("E3i-cold-start-schedules") {
             replay_part(&ColdStart { scen: cold_scenarios(cfg.seed), bounds: vec![0, 1, 2] }, &cfg, &v["case"])
+        } else if v["part"].as_str() == Some(&Rotation.name()) {
+            replay_part(&Rotation, &cfg, &v["case"])
         } else if v["part"].as_str() == Some(&ObjectReuse.name()) {
             replay_part(&ObjectReuse, &cfg, &v["case"])
         } else if v["part"].as_str() == Some(&LongHistories.name()) {
@@ -2352,6 +2452,11 @@ fn main() {
     if want(&cold.name()) {
         let r = run_part(&cold, &cfg);
         eprintln!("  part {}: cases {} schedules (one process each) {} violating {} ({:.1}s)", r.name, r.run, r.states, r.violations.len(), r.wall_s);
+        reports.push(r);
+    }
+    if want(&Rotation.name()) {
+        let r = run_part(&Rotation, &cfg);
+        eprintln!("  part {}: cases {} sequences {} violating {} ({:.1}s)", r.name, r.run, r.states, r.violations.len(), r.wall_s);
         reports.push(r);
     }
     if want(&ObjectReuse.name()) {
